@@ -36,6 +36,9 @@ def run(ctx):
         raw = evalimpl.outcome(lambda: asyncio.run(evaluate_ahb_expression_tree(res[1]))) if res[0] == "ok" else res
         terms.append(f"({gcer(rc, h, fc)}, {valcorr.nx_term(res)}, {valcorr.ahb_obs(raw)})")
         metas.append((s, rc, fc, raw))
+        ctx.dist("parts", len(parts) + (1 if tail else 0))
+        ctx.dist("form", "bare indicator" if not parts else "prefix operator" if parts[0][0] in valcorr.PO else "modal marks" + (" + trailing bare mark" if tail else ""))
+        ctx.dist("outcome", ("selected " + str(getattr(raw[1], "requirement_indicator", "?"))) if raw[0] == "ok" else str(raw[1]))
         # oracle 1: the split (on the AHB parser alone)
         key = f"{s!r}|{sorted(rc.items())}|{sorted(fc.items())}"
         desc = {"ahb_expression": s, "rc": rc, "fc": {k2: list(v) for k2, v in fc.items()}, "packages": dict(valcorr.CURRENT_PACKAGES)}
@@ -120,7 +123,7 @@ def run(ctx):
                             "single prefix-operator parts in both cases, bare indicators x random content evaluation results (some UNKNOWN); evaluate_ahb_expression_tree vs the model; "
                             "oracles: the parser's split equals the assembled parts, and the reported result is the first fulfilled part's own; non-trivial = expressions with several parts")
     ctx.sample({"ahb_expression": metas[3][0]})
-    return finish(ctx, assumptions=["the string-level split is checked by the oracle; its Coq model (AHB scanner) is part 2 of C09, see DESIGN.md section 12"])
+    return finish(ctx, assumptions=["Lark's dynamic lexer on the AHB grammar is modelled by the scanner of Model/Ahb.v (the C09_split* theorems are about it), validated by the scanner correspondence of this check and of C02"])
 
 
 def replay(path):
